@@ -6,6 +6,7 @@
 EXTENDS Semantics, Json, IOUtils
 Rec == ndJsonDeserialize(IOEnv.TRACE)
 PROP == IOEnv.PROP
+JL == INSTANCE JetLib          \* what the arithmetic / logic / comparison jets compute
 VARIABLE l
 S(x) == ToString(x)
 \* types and values travel with words compressed
@@ -43,6 +44,9 @@ OkC05(e) ==
             /\ S(x.out) # S("nonterminal") /\ Len(x.out) = W(ty[i][2])
             /\ q.ok /\ ReadPadded(x.out, 0, ty[i][2]).v = q.v
        /\ ~Terminal(e, i) => S(x.out) = S("nonterminal")
+       \* a jet that JetLib specifies computed its specified function (the others enter as oracle answers)
+       /\ (IsJetLeaf(e, i) /\ JL!JetKnown(e.dag[i][6])) =>
+            S(x.out) = S(IF JL!JetOut(e.dag[i][6], x.in) = JL!JetFails THEN "jetfailed" ELSE JL!JetOut(e.dag[i][6], x.in))
   /\ e.same_with_dirty_memory                                        \* independent of memory contents
 OkC07(e) ==
   LET ty == Ty(e) IN
